@@ -215,6 +215,16 @@ def build() -> Check:
             ck.ob("R4.millis-computed-exactly", fn_construct(fn), not lossy or bool(rounded),
                   f"`{ast.unparse(lossy[0])[:60]}` scales the float timestamp() and truncates: a whole-millisecond instant can come out 1 ms early "
                   "(and 1 ms earlier again after each further round trip)" if lossy else "")
+        else:
+            # ... and the decoder (h2_C20 #1): `ms / 1000` is a float of seconds; once the quotient needs more bits than a double has (2**33 s, 2242-03-16)
+            # a whole-millisecond value decodes up to a microsecond low - object -> JSON -> object is not the identity and the wire value moves by 1 ms
+            params = {a.arg for a in fn.node.args.args}
+            lossy = [n_ for n_ in ast.walk(fn.node) if isinstance(n_, ast.BinOp) and (isinstance(n_.op, ast.Div) or (
+                isinstance(n_.op, ast.Mult) and any(isinstance(c_, ast.Constant) and isinstance(c_.value, float) for c_ in (n_.left, n_.right))))
+                and any(isinstance(x, ast.Name) and x.id in params for x in ast.walk(n_))]
+            ck.ob("R4.millis-computed-exactly", fn_construct(fn), not lossy,
+                  f"`{ast.unparse(lossy[0])[:60]}` turns the integer millisecond value into a float of seconds: from 2242-03-16 on (2**33 s) the quotient is up to a "
+                  "microsecond off, a whole-millisecond timestamp decodes to ...000999 and re-encodes 1 ms early" if lossy else "")
         scale = {n.value for n in ast.walk(fn.node) if isinstance(n, ast.Constant) and isinstance(n.value, (int, float)) and n.value not in (0, 1)}
         ms_unit = any(isinstance(c_, ast.Call) and any(k_.arg == "milliseconds" for k_ in c_.keywords) for c_ in ast.walk(fn.node))
         ck.ob("R4.timestamp-scale", fn_construct(fn), bool(scale & {1000, 1000.0, 0.001}) or ms_unit, f"scaling constants {sorted(scale)}: the seconds<->milliseconds factor 1000 does not appear")
